@@ -86,12 +86,49 @@ void RecBackend::InputExtras() {
   // as GurobiBackend::InputGurobiFuncApproxParams: a model suffix on constraints/objectives is presolved onto
   // the solver's items; log what arrives per delivered constraint group
   for (const char *name : {"funcpieces", "c04int"}) {
-    if (auto mv0 = ReadModelSuffixInt({name, suf::Kind::CON_BIT | suf::Kind::OBJ_BIT})) {
+    int mask = suf::Kind::CON_BIT | suf::Kind::OBJ_BIT;
+    if (name[0] == 'c') mask |= suf::Kind::VAR_BIT;      // c04int: on variables as well
+    if (auto mv0 = ReadModelSuffixInt({name, mask})) {
       auto mv = GetValuePresolver().PresolveGenericInt(mv0);
       st_.Log(std::string("{\"ev\":\"modelsuffix\",\"name\":\"") + name + "\",\"src\":{" + rec_c04::mvals<int>(mv0) +
               "},\"pre\":{" + rec_c04::mvals<int>(mv) + "}}");
     }
   }
+}
+
+SensRangesPresolved RecBackend::GetSensRangesPresolved() {
+  SensRangesPresolved r;
+  auto var = [&](const char *k, pre::ModelValuesDbl &mv) {
+    auto it = st_.sens.find(std::string("sens_") + k);
+    if (it != st_.sens.end()) mv = pre::ModelValuesDbl{it->second};
+  };
+  auto con = [&](const char *k, pre::ModelValuesDbl &mv) {
+    auto it = st_.sens.find(std::string("sens_") + k);
+    if (it != st_.sens.end()) mv = pre::ModelValuesDbl{{}, {{{CG_Linear, it->second}}}};
+  };
+  var("varlblo", r.varlblo); var("varlbhi", r.varlbhi); var("varublo", r.varublo); var("varubhi", r.varubhi);
+  var("varobjlo", r.varobjlo); var("varobjhi", r.varobjhi);
+  con("conrhslo", r.conrhslo); con("conrhshi", r.conrhshi);
+  con("conlblo", r.conlblo); con("conlbhi", r.conlbhi); con("conublo", r.conublo); con("conubhi", r.conubhi);
+  st_.Log("{\"ev\":\"sens_query\"}");
+  return r;
+}
+
+ArrayRef<double> RecBackend::Ray() {       // as GurobiBackend::Ray
+  auto it = st_.sens.find("ray");
+  if (it == st_.sens.end()) return {};
+  auto mv = GetValuePresolver().PostsolveSolution({it->second});
+  std::vector<double> r = mv.GetVarValues()();
+  st_.Log("{\"ev\":\"ray_out\",\"solver\":" + rec::dbls(it->second) + ",\"post\":{" + rec_c04::mvals<double>(mv) + "}}");
+  return r;
+}
+
+ArrayRef<double> RecBackend::DRay() {      // as GurobiBackend::DRay
+  auto it = st_.sens.find("dray");
+  if (it == st_.sens.end()) return {};
+  auto mv = GetValuePresolver().PostsolveSolution({{}, {{{CG_Linear, it->second}}}});
+  st_.Log("{\"ev\":\"dray_out\",\"solver\":" + rec::dbls(it->second) + ",\"post\":{" + rec_c04::mvals<double>(mv) + "}}");
+  return mv.GetConValues().MoveOut();
 }
 
 void RecBackend::DumpGraphOnce() {
